@@ -58,17 +58,148 @@ Proof. vm_compute. repeat split; reflexivity. Qed.
 
 (* with those masks the built-in features can only run in the order STARTTLS, SASL, bind *)
 Lemma builtin_order c bits clear tls outs choices pre post f st o :
-  (forall g, find_space ns_StartTLS (c_feats c) = Some g -> f_nec g = ft_starttls_nec /\ f_proh g = ft_starttls_proh) ->
   trace (run c bits clear tls outs choices) = pre ++ ENeg f st o :: post ->
   (f_nec f = ft_sasl_nec -> f_proh f = ft_sasl_proh -> has st st_Secure = true /\ disj st st_Authn = true) /\
   (f_nec f = ft_bind_nec -> f_proh f = ft_bind_proh -> has st st_Authn = true /\ disj st st_Ready = true) /\
   (f_nec f = ft_starttls_nec -> f_proh f = ft_starttls_proh -> disj st st_Secure = true).
 Proof.
-  intros Hb E.
-  pose proof (proj1 (holds_at _ _ _ _ _) (clause_prerequisites_builtin c bits clear tls outs choices Hb) _ _ _ E) as X.
-  simpl in X. unfold eligible in X. apply andb_true_iff in X. destruct X as [X1 X2].
+  intros E.
+  pose proof (at_neg_prerequisites c bits clear tls outs choices _ _ _ _ _ E) as X.
+  unfold eligible in X. apply andb_true_iff in X. destruct X as [X1 X2].
   split; [|split]; intros Hn Hp; rewrite Hn in X1; rewrite Hp in X2.
   - split; assumption.
   - split; assumption.
   - exact X2.
+Qed.
+
+(* ------------------------------------------------------------------ the literal reading of "feature of the last advertisement" *)
+
+Lemma adv_cache_all fs st e : forall cs ca,
+  In e (adv_cache fs st cs ca) -> In e ca \/ In e (adv_all fs cs).
+Proof.
+  induction cs as [|ch cs IH]; intros ca Hin; simpl in *; [left; exact Hin|].
+  destruct ch as [sp lo req perr|]; [|left; exact Hin].
+  destruct (get_feature (sp, lo) fs) as [f|]; [|apply IH; exact Hin].
+  destruct perr; [left; exact Hin|].
+  destruct (IH _ Hin) as [X|X].
+  - apply In_cache_step in X. destruct X as [[X _]|X]; [|left; exact X].
+    right. left. symmetry. exact X.
+  - right. right. exact X.
+Qed.
+
+Lemma listed_cache_all st e : forall fs ca,
+  In e (listed_cache fs st ca) -> In e ca \/ In e (map (fun f => (f_lreq f, f)) (listed fs st)).
+Proof.
+  induction fs as [|f fs IH]; intros ca Hin; simpl in *; [left; exact Hin|].
+  unfold listed in *. simpl. destruct (eligible f st) eqn:Ee.
+  - destruct (IH _ Hin) as [X|X].
+    + apply In_cache_put in X. destruct X as [X|X]; [|left; exact X].
+      right. simpl. left. symmetry. exact X.
+    + right. simpl. right. exact X.
+  - apply IH. exact Hin.
+Qed.
+
+(* every entry of the monitor's cache is one of the features the advertisement named *)
+Definition cache_sub (q : mon) : Prop := forall e, In e (q_cache q) -> In e (q_advall q).
+
+Lemma upd_cache_sub fs ws q e : cache_sub q -> cache_sub (upd fs ws q e).
+Proof.
+  intros Hs. destruct e as [rp st it| rp | w | f | f | f st o | n | b]; simpl; try exact Hs.
+  - destruct rp; try exact Hs.
+    + destruct it as [[] []]; try exact Hs. intros g Hg. simpl in *.
+      destruct (adv_cache_all _ _ _ _ _ Hg) as [[]|X]. exact X.
+    + destruct (selection_space _ it); [|exact Hs]. destruct (accept _ _ _ _) as [[? ?]|]; exact Hs.
+  - destruct w as [|st names []|]; try exact Hs.
+    + intros g [].
+    + intros g Hg. simpl in *. destruct (listed_cache_all _ _ _ _ Hg) as [[]|X]. exact X.
+Qed.
+
+Lemma final_cache_sub fs ws : forall tr q, cache_sub q -> cache_sub (final fs ws q tr).
+Proof. induction tr as [|e tr IH]; intros q Hs; simpl; [exact Hs | apply IH; apply upd_cache_sub; exact Hs]. Qed.
+
+Lemma pending_is_pending_adv fs ws bits tr :
+  let q := final fs ws (mon0 bits) tr in pending q -> pending_adv q.
+Proof.
+  intros q (g & Hg & Hc). exists g. split; [|exact Hc].
+  apply (final_cache_sub fs ws tr (mon0 bits)); [intros ? []|exact Hg].
+Qed.
+
+(* the literal statement about "reported established" *)
+Definition established_literal_statement : Prop :=
+  forall c bits clear tls outs choices,
+    let r := run c bits clear tls outs choices in
+    let q := final (c_feats c) (c_ws c) (mon0 bits) (trace r) in
+    r_class r = ROk -> has (r_bits r) st_Ready = true /\ q_need_header q = false /\ ~ pending_adv q.
+
+(* it is false even when no feature reports Ready itself: a feature advertised
+   as required while its prerequisites did not hold never enters the cache, and
+   `nothing left to negotiate` reports Ready although it is eligible by now *)
+Lemma established_literal_refuted :
+  exists c bits clear tls outs choices,
+    let r := run c bits clear tls outs choices in
+    let q := final (c_feats c) (c_ws c) (mon0 bits) (trace r) in
+    r_class r = ROk /\ self_ready (trace r) = false /\ pending_adv q.
+Proof.
+  exists cfg_w3, 0%N, [hdr; mkItem false (PFeatures [FC xa (str "a") false false; FC xb (str "b") true false])], [],
+         [mkO st_Authn false false], [xa].
+  split; [vm_compute; reflexivity|]. split; [vm_compute; reflexivity|].
+  exists fb_authn. split; vm_compute; auto.
+Qed.
+
+Lemma established_literal_false : ~ established_literal_statement.
+Proof.
+  intro S. destruct established_literal_refuted as (c & bits & clear & tls & outs & choices & A & _ & B).
+  destruct (S c bits clear tls outs choices A) as (_ & _ & X). exact (X B).
+Qed.
+
+(* what holds of the literal reading: unless a feature reported Ready itself, a
+   feature left open in the literal sense is one that was not an entry of the
+   cache — its prerequisites did not hold when it was advertised (or a later
+   child in the same name space replaced it) *)
+Lemma established_literal_partial c bits clear tls outs choices :
+  let r := run c bits clear tls outs choices in
+  let q := final (c_feats c) (c_ws c) (mon0 bits) (trace r) in
+  r_class r = ROk -> self_ready (trace r) = false ->
+  q_need_header q = false /\
+  forall g, In (true, g) (q_advall q) -> cand (q_negd q) (q_last q) (true, g) = true -> ~ In (true, g) (q_cache q).
+Proof.
+  intros r q Hok Hs. destruct (established_when_no_self_ready c bits clear tls outs choices Hok) as [_ X].
+  destruct (X Hs) as [X1 X2]. split; [exact X1|].
+  intros g _ Hc Hin. apply X2. exists g. split; [exact Hin | exact Hc].
+Qed.
+
+(* the literal statement about "voluntary before mandatory" *)
+Definition voluntary_first_literal_statement : Prop :=
+  forall c bits clear tls outs choices,
+    holds (c_feats c) (c_ws c) cl_voluntary_first_literal (mon0 bits) (trace (run c bits clear tls outs choices)).
+
+Lemma voluntary_first_literal_refuted :
+  exists c bits clear tls outs choices pre post f st o g,
+    trace (run c bits clear tls outs choices) = pre ++ ENeg f st o :: post /\
+    let q := final (c_feats c) (c_ws c) (mon0 bits) pre in
+    q_recv q = false /\ In (true, f) (q_cache q) /\ In (false, g) (q_advall q) /\
+    cand (q_negd q) st (false, g) = true.
+Proof.
+  exists cfg_w4, 0%N, [hdr; mkItem false (PFeatures [FC xa (str "a") false false; FC xb (str "b") false false; FC xc (str "c") true false])], [],
+         [mkO st_Authn false false; mkO 0%N false false], [xa; xc].
+  exists (firstn 8 (trace w4_run)), (skipn 9 (trace w4_run)), fr3, st_Authn, (mkO 0%N false false), fv_authn.
+  split; [vm_compute; reflexivity|]. vm_compute. auto 10.
+Qed.
+
+Lemma voluntary_first_literal_false : ~ voluntary_first_literal_statement.
+Proof.
+  intro S. destruct voluntary_first_literal_refuted as (c & bits & clear & tls & outs & choices & pre & post & f & st & o & g & E & A & B & C & D).
+  pose proof (proj1 (holds_at _ _ _ _ _) (S c bits clear tls outs choices) _ _ _ E) as X. simpl in X.
+  rewrite (X A B g C) in D. discriminate.
+Qed.
+
+(* what holds: the voluntary features that can be open then are not entries of the cache *)
+Lemma voluntary_first_literal_partial c bits clear tls outs choices pre post f st o :
+  trace (run c bits clear tls outs choices) = pre ++ ENeg f st o :: post ->
+  let q := final (c_feats c) (c_ws c) (mon0 bits) pre in
+  q_recv q = false -> In (true, f) (q_cache q) ->
+  forall g, In (false, g) (q_advall q) -> cand (q_negd q) st (false, g) = true -> ~ In (false, g) (q_cache q).
+Proof.
+  intros E q Hr Hf g _ Hc Hin.
+  rewrite (at_neg_voluntary_first c bits clear tls outs choices _ _ _ _ _ E Hr Hf g Hin) in Hc. discriminate.
 Qed.
